@@ -133,6 +133,10 @@ func parse(byteData []byte) (*DisallowedCerts, error) {
 				err := errors.New("SST does not use ASN1 encoding")
 				return nil, err
 			}
+			if int64(len) > int64(bytesReader.Len()) {
+				err := errors.New("SST truncated at certificate")
+				return nil, err
+			}
 			certChain := make([]byte, len)
 			binary.Read(bytesReader, binary.LittleEndian, &certChain)
 			certs = append(certs, certChain)
